@@ -266,8 +266,11 @@ void MEDDLY::prepost_set_mtrel<EOP, ATYPE>::_compute(int L,
     //
     // **************************************************************
     if (0==B || ATYPE::isUnreachable(av, A)) {
+        //
+        // (The unreachable edge is canonical as it is:
+        //  the operand's edge value does not enter it.)
+        //
         ATYPE::setUnreachable(cv, C);
-        EOP::accumulateOp(cv, av);
         C = resF->makeRedundantsTo(C, Clevel, L);
         return;
     }
@@ -279,6 +282,11 @@ void MEDDLY::prepost_set_mtrel<EOP, ATYPE>::_compute(int L,
         // Treat that case quickly.
         //
         ATYPE::apply(arg1F, av, A, arg2F, B, resF, cv, C);
+        //
+        // The copy is rooted at A's level; the result forest
+        // may need the (redundant) levels up to L.
+        //
+        C = resF->makeRedundantsTo(C, resF->getNodeLevel(C), L);
         return;
     }
 
